@@ -108,6 +108,9 @@ def value_in_decade(V, name, k, negative):
 
 def execute(cfg, V):
     kind = cfg['kind']
+    if kind == 'display':
+        from harness import C18_display
+        return C18_display.execute(cfg, V)
     if V.sym: core.CTX.extra['decimal_model'] = True
     with patched(V.sym) as U:
         obs = []
@@ -119,7 +122,7 @@ def execute(cfg, V):
             if table is not None:
                 sf = U.ScientificFloat(value=v, precision=P, use_exp_prefix=up, exp_prefixes=dict(table))
                 lo_ok = min(table) - 3 - 3; hi_ok = max(table) + 2          # decades a one- or two-sided table can still express
-                in_range = (k - p + 1) <= max(table) and k >= -15
+                in_range = -15 <= k <= max(table) + 2          # representable: mantissa below 1000 with the largest prefix of the table
             else:
                 sf = U.ScientificFloat(value=v, precision=P, use_exp_prefix=up)
                 in_range = -15 <= k <= 14
@@ -226,13 +229,16 @@ def polar_obligations(cfg, V, U):
 
 
 def worker(cfg):
+    if cfg.get('kind') == 'display':
+        from harness import C18_display
+        return C18_display.worker(cfg)
     res = {'cfg': cfg, 'key': json.dumps(cfg, sort_keys=True)}
     out = sx.run_symbolic(execute, cfg, [], rounds=0, seed=driver.seed_of(), max_paths=2000)
     for v in out['violations']:
         v['sig'].update({k: cfg.get(k) for k in ('kind', 'p', 'prefix')}); v['pid'] = cfg.get('pid_', PID)
         v['sig']['case'] = classify(cfg, v)
     res.update({k: out[k] for k in ('paths', 'obligations', 'discharged', 'queries', 'violations', 'inconclusive', 'out_of_bound')})
-    res['solver_s'] = out['solver_s']
+    res['solver_s'] = out['solver_s']; res['tie_only_paths'] = out.get('tie_only_paths', 0)
     if cfg.get('twin'):
         res['twins'] = 1; res['twins_ok'] = 1 if (out['violations'] and not out['inconclusive']) else 0
         res['violations'] = []; res['inconclusive'] = [] if res['twins_ok'] else out['inconclusive']
@@ -242,17 +248,32 @@ def worker(cfg):
     return res
 
 
+def saturates_by_precision(v, p, M):
+    """the recorded is_inf defect: the value, rounded to p digits, is representable with the largest prefix M (mantissa < 1000) but the
+    precision-dependent exponent (decade - p + 1) exceeds M"""
+    if not isinstance(v, (int, float)) or v == 0: return False
+    from decimal import Decimal, ROUND_HALF_UP, ROUND_HALF_EVEN
+    x = Decimal(repr(float(abs(v))))
+    for mode in (ROUND_HALF_UP, ROUND_HALF_EVEN):          # at an exact decimal tie the code's rounding is either
+        d = x.quantize(Decimal(1).scaleb(x.adjusted() - p + 1), rounding=mode).adjusted()
+        if d - p + 1 > M and d <= M + 2: return True
+    return False
+
+
 def classify(cfg, v):
-    """names the two recorded defect classes by the failing INPUT region (anything else stays 'other')"""
+    """names the recorded defect classes by the failing INPUT region (anything else stays 'other')"""
     inp = v.get('inputs', {})
-    failed = ' '.join(str(x) for x in v['sig'].get('symbolic_failed', ()))
-    def near_one(a, p): return a is not None and 1 - 0.5 * 10.0 ** (-p) - 1e-12 <= abs(a) < 1
-    if cfg['kind'] in ('float', 'parts') and cfg['k'] == -1 and near_one(inp.get('v'), cfg['p']):
+    failed = ' '.join(str(x) for x in v['sig'].get('symbolic_failed', ())) + ' ' + str(v['sig'].get('obligation') or '')
+    p = cfg['p']
+    def near_one(a): return isinstance(a, (int, float)) and 1 - 0.5 * 10.0 ** (-p) - 1e-12 <= abs(a) < 1
+    kind = cfg['kind']
+    main = {'float': [('v', cfg.get('k'))], 'parts': [('v', cfg.get('k'))], 'complex': [('re', cfg.get('kr')), ('im', cfg.get('ki'))], 'polar': [('rho', cfg.get('k'))]}[kind]
+    if any(k == -1 and near_one(inp.get(n)) for n, k in main):
         return 'value_in_[1-0.5*10^-p,1)_rounds_up_to_one'
-    if cfg['kind'] == 'complex' and ((cfg['kr'] == -1 and near_one(inp.get('re'), cfg['p'])) or (cfg['ki'] == -1 and near_one(inp.get('im'), cfg['p']))):
-        return 'value_in_[1-0.5*10^-p,1)_rounds_up_to_one'
-    if cfg['kind'] == 'float' and cfg.get('prefix') and 'infinity sign only beyond the range' in failed and cfg['k'] in (13, 14) and cfg['k'] + 1 - cfg['p'] > 12:
-        return 'prefix_mode_saturates_below_1e15_for_low_precision'
+    if cfg.get('prefix') and 'infinity sign only beyond the range' in failed:
+        M = max(TABLES[cfg['table']]) if cfg.get('table') else 12
+        if any(saturates_by_precision(inp.get(n), p, M) for n, _ in main):
+            return 'prefix_mode_saturates_below_1e15_for_low_precision'
     return 'other'
 
 
@@ -306,6 +327,8 @@ def configs(tier, seed):
             for deg in (False, True):
                 for dr in ('sym', 'zero', 'pi', 'half', '-half'):
                     cfgs.append({'kind': 'polar', 'k': k, 'p': p, 'deg': deg, 'dir': dr, 'prefix': (k + p) % 2 == 0})
+    from harness import C18_display
+    cfgs += C18_display.configs(tier)
     cfgs.append({'kind': 'float', 'k': 2, 'p': 3, 'prefix': False, 'neg': False, 'twin': True})
     return cfgs, None
 
@@ -322,12 +345,13 @@ def main(tier):
     from harness import C18_ch_run
     C18_ch_run.run(rep, tier)
     return rep.finish(
-        explanation='bounded symbolic verification: the real formatting code is executed on a symbolic real value per decade (10^k <= |v| < 10^(k+1), k = -17..16), precision, prefix mode and sign; str(float) / format(float) follow the decimal-numeral contract, np.round / int / %1 are contract stubs on a decimal grid, integer formatting yields tokens that the numeral parser maps back; z3 (QF_LRA) shows on every path (all rounding-carry regions explored) that the rendered text denotes a number within half a unit of the p-th significant digit, with an exponent that is a multiple of three, a mantissa between 1 and 1000 and well-formed fraction digits, that infinity appears only beyond the range with the right sign, that the complex rendering has the layout [sign]R[+/-]jI built from the renderings of |re| and |im|, and that the polar rendering is <magnitude numeral>∠<angle> with the magnitude accurate at the requested precision, the angle token being the angle of the value (sign included, >= 4 decimals in radians / 2 in degrees) and omitted only when negligible; CrossHair confirms the prefix / extension logic for arbitrary integer exponents',
+        explanation='bounded symbolic verification: the real formatting code is executed on a symbolic real value per decade (10^k <= |v| < 10^(k+1), k = -17..16), precision, prefix mode and sign; str(float) / format(float) follow the decimal-numeral contract, np.round / int / %1 are contract stubs on a decimal grid, integer formatting yields tokens that the numeral parser maps back; z3 (QF_LRA) shows on every path (all rounding-carry regions explored) that the rendered text denotes a number within half a unit of the p-th significant digit, with an exponent that is a multiple of three, a mantissa between 1 and 1000 and well-formed fraction digits, that infinity appears only beyond the range with the right sign, that the complex rendering has the layout [sign]R[+/-]jI built from the renderings of |re| and |im|, and that the polar rendering is <magnitude numeral>∠<angle> with the magnitude accurate at the requested precision, the angle token being the angle of the value (sign included, >= 4 decimals in radians / 2 in degrees) and omitted only when negligible; the display helpers of SimpleCircuit/Display.py (print_real, print_abs, print_complex Cartesian / polar, print_sinosoidal with cos / sin, hertz, degrees, print_active_power, print_active_reactive_power, print_resistance / conductance / impedance / capacitance / inductance) are executed the same way with cmath.phase / math.degrees / math.pi rebound to the polar stub: every numeral of the label (unit stripped, the helper\'s own prefix table) denotes the intended quantity to the requested precision, signs / arrows / keyword / 2π factor / unit are literal; CrossHair confirms the prefix / extension logic for arbitrary integer exponents',
         assumptions=['floats are treated as reals and str(float) / format(float) as the exact decimal expansion (binary representation error of the digits and the C routine behind str are outside the model; the model is validated against the real str()/format() on a concrete sweep)',
                      'np.round(x, d) returns a multiple of 10^-d within half a step of x; int() truncates; x % 1 is the fractional part',
                      'the in-range decades are 1e-15 <= |v| < 1e15; "between 1 and 1000" is inclusive', 'polar form: format(angle, ".Nf") is modelled as a numeral within half a unit of its last decimal of the value handed to it (Python\'s own float formatting is trusted); (abs, angle) of z = rho*e^{j theta} follow the contract |z| = rho, angle = theta for theta in (-pi, pi]; an omitted angle must be below one unit of the last angle decimal'],
         bounds={'decades': 'k = -17 .. 16', 'precision': list(range(1, 5)) if tier == 'quick' else list(range(1, 7)), 'prefix mode': [False, True], 'sign': ['+', '-'],
                 'complex': '7 decade pairs x 4 quadrants x compact x precision 2,3',
+                'display helpers': ('decades -5,0,2,4; precision 3,4' if tier == 'quick' else 'decades -8..8 (13 of them); precision 1..5') + '; all helpers of Display.py, every flag combination of print_sinosoidal',
                 'polar': ('decades -5,0,1,4; precision 2,3,4' if tier == 'quick' else 'decades -15..14; precision 1..6') + '; radians and degrees; angle symbolic in (-pi, pi] and exactly 0, pi, +-pi/2'},
         exhaustive=True,
         trusted=['z3 QF_LRA', 'symx executor', 'symx/decstr.py numeral model', 'CrossHair 0.0.110'])
